@@ -21,6 +21,8 @@ class Daemon:
         self.conf_path = os.path.join(self.dir, 'iauthd.conf')
         self.symlink = symlink
         self.gen = 0
+        from . import e1 as _e1
+        conf = _e1.rebase_conf(conf, self.b)
         if symlink:
             # the -f path is a symbolic link; new configurations are published by re-pointing it (publish())
             with open(os.path.join(self.dir, 'gen0.conf'), 'w') as f:
